@@ -66,15 +66,86 @@ RULE = ('graphs mixing redo-ifcreate watchers (standard idiom: ifchange if the p
         'unrelated edits in between, -j1..8. Oracle: executed multiset per command vs reference model (watcher runs at the first '
         'redo-ifchange after the path exists and not before; always-target exactly once per top-level run that needs it); '
         'plus: redo-ifcreate on an existing path must fail, on an absent path must succeed, also from a script that has changed directory (the path counts from where the script stands). Non-trivial: a rebuild caused by a '
-        'created path or by redo-always was observed and >=3 commands. Distinct: (graph shape, op sequence).')
+        'created path or by redo-always was observed and >=3 commands. Distinct: (graph shape, op sequence). '
+        'Not-before layer: T watches F with redo-ifcreate, F never exists, and in the same runs another script tries to build F, fails (no rule / failing rule) '
+        'and carries on, in both orders and at -j1/-j3: over three commands T runs exactly once.')
 ASSUME = ['reference model rvlib/model.py', 'anomalies are counted here only if the target involved is an ifcreate watcher / always node (or a command-level exit mismatch)']
+
+
+def notbefore_case(item):
+    """"Not before": T declares `redo-ifcreate F` and F never comes into existence, while in the same runs somebody else tries to
+    build F and fails (no rule for it, or a rule that fails without output) and carries on.  Nothing T declared has happened, so T
+    runs once - in the first command - and never again."""
+    _, why, order, j, seed = item
+    files = {
+        'T.do': scen.TRACE_HDR + 'echo "S $1 $$ $PPID" >&9\n[ -e F ] && redo-ifchange F || redo-ifcreate F\necho t > "$3"\necho "E $1 $$ 0" >&9\n',
+        'U.do': scen.TRACE_HDR + 'echo "S $1 $$ $PPID" >&9\nredo-ifchange F || true\necho u > "$3"\necho "E $1 $$ 0" >&9\n',
+        'all.do': scen.TRACE_HDR + 'echo "S $1 $$ $PPID" >&9\nredo-ifchange %s\necho "E $1 $$ 0" >&9\n' % ' '.join(order),
+    }
+    if why == 'rule-fails':
+        files['F.do'] = scen.TRACE_HDR + 'echo "S $1 $$ $PPID" >&9\necho "E $1 $$ 1" >&9\nexit 1\n'
+    pj = scen.Project(files, 'c14n')
+    anoms = []
+    obs = dict(not_before_rounds=1, commands=0, failed_attempts_to_build_the_watched_path=0)
+    try:
+        runs_of_t = []
+        for k in range(3):
+            open(pj.trace, 'w').close()
+            r, _ = pj.run(['redo-ifchange', 'all'], slots=(j if j > 1 else None))
+            if r.status != 'exit' or r.panicked():
+                return dict(verdict='inconclusive', why='command %d did not end normally: %s' % (k, r.status), sample=dict(item=list(item)))
+            obs['commands'] += 1
+            if r.rc != 0:
+                anoms.append(dict(key='not-before:nonzero', what='command %d: exit %s: %s' % (k, r.rc, r.err[-200:].replace('\n', ' | '))))
+                break
+            ex = [l.split(' ')[1] for l in pj.trace_text().split('\n') if l.startswith('S ')]
+            runs_of_t.append(ex.count('T'))
+            if 'target F failed' in r.err or 'no rule to' in r.err or 'exit code' in r.err or 'F' in ex:
+                obs['failed_attempts_to_build_the_watched_path'] += 1
+            if os.path.lexists(os.path.join(pj.top, 'F')):
+                return dict(verdict='inconclusive', why='F came into existence', sample=dict(item=list(item)))
+        if not anoms and runs_of_t != [1, 0, 0]:
+            anoms.append(dict(key='watcher-ran-before-the-path-exists:failed-attempt-to-build-it-elsewhere',
+                              what='T (redo-ifcreate F; F never existed; U tried to build F, failed and carried on) ran %s times in three commands, expected [1, 0, 0]' % runs_of_t))
+    finally:
+        pj.close()
+    res = dict(verdict='violated' if anoms else 'held', nontrivial=obs['commands'] == 3 and obs['failed_attempts_to_build_the_watched_path'] > 0, shape=common.shash(list(item)),
+               sample=dict(kind='notbefore', why=why, order=list(order), j=j), obs=obs, sets=dict(not_before_shapes=['%s/%s/j%d' % (why, '-'.join(order), j)]))
+    if anoms:
+        res['violations'] = anoms[:2]
+        res['replay'] = dict(kind='notbefore', item=list(item))
+    return res
+
+
+class Dispatch:
+    def __init__(self, hist):
+        self.hist = hist
+
+    def __call__(self, item, **kw):
+        if isinstance(item, (tuple, list)) and item and item[0] == 'notbefore':
+            return notbefore_case(tuple(item))
+        return self.hist(item, **kw)
 
 
 def main(tier):
     n, budget = (240, 70) if tier == 'quick' else (5000, 780)
-    return histcheck.run(PROP, tier, CASE, histcheck.seeds_for(PROP, tier, n), 'exploration', RULE, ASSUME, budget, floor=20)
+    extra = [('notbefore', why, order, j, rep) for rep in range(1 if tier == 'quick' else 4)
+             for why in ('no-rule', 'rule-fails') for order in (('U', 'T'), ('T', 'U')) for j in (1, 3)]
+    return histcheck.run(PROP, tier, Dispatch(CASE), extra + histcheck.seeds_for(PROP, tier, n), 'exploration', RULE, ASSUME, budget, floor=20)
 
 
 def replay(path):
+    import json
+    d = json.load(open(path))
+    if d['replay'].get('kind') == 'notbefore':
+        common.ensure_built()
+        it = d['replay']['item']
+        r = notbefore_case((it[0], it[1], tuple(it[2]), it[3], it[4]))
+        print(r.get('verdict'), r.get('violations'))
+        common.cleanup_scratch()
+        if r.get('verdict') == 'violated':
+            print('VIOLATION property=%s replay=%s' % (PROP, path))
+            return 1
+        return 0
     from ..replay import replay_history
     return replay_history(PROP, path)
